@@ -30,11 +30,16 @@ SYMBOL_REGEX = re.compile(r"[A-Za-z_][A-Za-z0-9_]*")
 NO_DEFAULT = object()
 
 
-def _get_name_and_record_counts_from_union(schema: List[Schema]) -> Tuple[int, int]:
+def _get_name_and_record_counts_from_union(
+    schema: List[Schema], named_schemas: Optional[NamedSchemas] = None
+) -> Tuple[int, int]:
     record_type_count = 0
     named_type_count = 0
     for s in schema:
         extracted_type = extract_record_type(s)
+        if named_schemas and extracted_type in named_schemas:
+            # a by-name reference: count the type it denotes
+            extracted_type = extract_record_type(named_schemas[extracted_type])
         if extracted_type == "record":
             record_type_count += 1
             named_type_count += 1
@@ -50,12 +55,16 @@ def _get_name_and_record_counts_from_union(schema: List[Schema]) -> Tuple[int, i
     return named_type_count, record_type_count
 
 
-def is_single_record_union(schema: List[Schema]) -> bool:
-    return _get_name_and_record_counts_from_union(schema)[1] == 1
+def is_single_record_union(
+    schema: List[Schema], named_schemas: Optional[NamedSchemas] = None
+) -> bool:
+    return _get_name_and_record_counts_from_union(schema, named_schemas)[1] == 1
 
 
-def is_single_name_union(schema: List[Schema]) -> bool:
-    return _get_name_and_record_counts_from_union(schema)[0] == 1
+def is_single_name_union(
+    schema: List[Schema], named_schemas: Optional[NamedSchemas] = None
+) -> bool:
+    return _get_name_and_record_counts_from_union(schema, named_schemas)[0] == 1
 
 
 def extract_record_type(schema: Schema) -> str:
